@@ -44,6 +44,7 @@ class Source:
     def __init__(self):
         self.counter = {}
         self.log = {}
+        self.ghost = {}
 
     def fresh_name(self, hint):
         n = self.counter.get(hint, 0)
@@ -283,6 +284,7 @@ class _BindHelper:
 def call_by_contract(con, args, kwargs, source, what):
     """Concrete behaviour of an interface/external call: any behaviour the contract allows."""
     bound = con.bind(args, kwargs, _BindHelper())
+    g0 = dict(source.ghost)
     old = freeze_args(bound)
     pre = CView(old, LiveNS(bound), source)
     for cid, f in con.requires(pre):
@@ -299,7 +301,9 @@ def call_by_contract(con, args, kwargs, source, what):
         result = draw(source, out.ty, short + '.ret')
     else:
         raised = out.exc
-    post = CView(old, LiveNS(bound), source, result=cview(result), raised=raised, label=out.label)
+    post = CView(old, LiveNS(bound), source, result=cview(result), raised=raised, label=out.label, ghost0=g0)
+    post.what = short
+    con.effects(post)
     for cid, f in con.ensures(post):
         if not f:
             raise OutOfDomain('%s.%s' % (what, cid))
@@ -420,6 +424,10 @@ class ConcBuilder:
 
     def func(self, v):
         return v
+
+    def ghost(self, name, value):
+        self.source.ghost[name] = value
+        return value
 
 
 # ---------------------------------------------------------------------------------------------
@@ -571,11 +579,16 @@ class CView:
         self.result = result
         self.raised = raised
         self.label = label
-        self.g = ghost if ghost is not None else {}
-        self.g0 = ghost0 if ghost0 is not None else {}
+        self.source = source
+        self.g = source.ghost if ghost is None else ghost
+        self.g0 = ghost0 if ghost0 is not None else dict(self.g)
+        self.what = ''
         self.exc = exc
         self.trace = []
         self.concrete = True
+
+    def draw(self, ty, hint):
+        return cview(draw(self.source, ty, '%s.%s' % (self.what, hint) if self.what else hint))
 
 
 # ---------------------------------------------------------------------------------------------
@@ -588,6 +601,7 @@ def run_case(con, source, reg, clause_filter=None):
         b = ConcBuilder(source, reg)
         args = con.shape(b)
         old = freeze_args(args)
+        g0 = dict(source.ghost)
         pre = CView(old, LiveNS(args), source)
         for cid, f in con.requires(pre):
             if not f:
@@ -603,7 +617,7 @@ def run_case(con, source, reg, clause_filter=None):
                 raise
             raised = type(e).__name__
             exc = e
-        post = CView(old, LiveNS(args), source, result=cview(result), raised=raised, exc=exc)
+        post = CView(old, LiveNS(args), source, result=cview(result), raised=raised, exc=exc, ghost0=g0)
         failed = []
         if raised is not None and con.exits is not None and raised not in con.exits(post):
             failed.append('raises-only-declared')
